@@ -1,4 +1,5 @@
 import Taskpool.Props.C06
+import Taskpool.Inv.RunSortedWalk
 /-! # C11 — Task ids are dense, ordered, never reused, visible in task names
 
 In the model a task's id *is* its index in the pool's task list (the counter `_num_started` of the code is the
@@ -117,5 +118,14 @@ theorem C11_indices_distinct (base : Nat) (h : History) :
 /-! Non-vacuity -/
 example : (((World.init 5).run [.mkpool none none none, .mkpool (some (-1)) none none, .mkpool none none none]).cfgs.map
     (·.idx)) = [5, 7] := by decide +kernel
+
+/-- **the running registry lists its tasks in start order** — in every pool of every reachable world, whatever the
+history, the ids filed as running are strictly ascending (the order in which the tasks were created) and every one of them
+is below the number of tasks started so far; together with `C11_new_id_is_count` a new task's id is greater than every id
+in the registry -/
+theorem C11_running_ids_ascending (base : Nat) (h : History) (i : Nat) (c : Cfg) (p : Pool)
+    (hc : ((World.init base).run h).cfgs[i]? = some c) (hp : ((World.init base).run h).pools[i]? = some p) :
+    p.running.Pairwise (· < ·) ∧ ∀ t ∈ p.running, t < p.tasks.length :=
+  ⟨(World.runSorted_run base h i c p hc hp).asc, (World.runSorted_run base h i c p hc hp).bnd⟩
 
 end Taskpool
